@@ -519,31 +519,26 @@ impl Hypercore {
         // here we do only one. _verifyShared groups together many subsequent changesets into a single
         // oplog push, and then flushes in the end only for the whole group.
         let bitfield_update: Option<BitfieldUpdate> = if let Some(block) = &proof.block.as_ref() {
-            let byte_offset =
+            // As in `clear`: with a small node cache the set of nodes to read can change
+            // between passes, so read until the offset is resolved.
+            let mut infos: Vec<StoreInfo> = Vec::new();
+            let byte_offset = loop {
+                let read_so_far = if infos.is_empty() {
+                    None
+                } else {
+                    Some(infos.as_slice())
+                };
                 match self
                     .tree
-                    .byte_offset_in_changeset(block.index, &changeset, None)?
+                    .byte_offset_in_changeset(block.index, &changeset, read_so_far)?
                 {
-                    Either::Right(value) => value,
+                    Either::Right(value) => break value,
                     Either::Left(instructions) => {
-                        let infos = self.storage.read_infos_to_vec(&instructions).await?;
-                        match self.tree.byte_offset_in_changeset(
-                            block.index,
-                            &changeset,
-                            Some(&infos),
-                        )? {
-                            Either::Right(value) => value,
-                            Either::Left(_) => {
-                                return Err(HypercoreError::InvalidOperation {
-                                    context: format!(
-                                        "Could not read offset for index {} from tree",
-                                        block.index
-                                    ),
-                                });
-                            }
-                        }
+                        let new_infos = self.storage.read_infos_to_vec(&instructions).await?;
+                        infos.extend(new_infos);
                     }
-                };
+                }
+            };
 
             // Write the value to the block store
             let info_to_flush = self.block_store.put(&block.value, byte_offset);
